@@ -3,4 +3,4 @@
 cd "$(dirname "$0")"
 TIER=${1:-quick}
 python3 -c "import json;print(' '.join(c['property_id'] for c in json.load(open('MANIFEST.json'))['checks']))" | tr ' ' '\n' | \
-  xargs -P 6 -I{} sh -c './check {} --tier '"$TIER"' > work/all-{}.log 2>&1; echo "{} exit $?"; grep -E "VIOLATION|KNOWN-FINDING" work/all-{}.log | head -5'
+  xargs -P ${RUN_PAR:-6} -I{} sh -c './check {} --tier '"$TIER"' > work/all-{}.log 2>&1; echo "{} exit $?"; grep -E "VIOLATION|KNOWN-FINDING" work/all-{}.log | head -5'
